@@ -498,7 +498,7 @@ class Interp:
             return bool(v[1]) if not (len(v) > 2 and v[2]) else (True if v[1] else self.free("nonempty(%s)" % text))
         return self.free("truth(%s)" % (text or show(v)))
 
-    def equal(self, a, b, text=""):
+    def equal(self, a, b, text="", identity=False):
         """three cases decided exactly; otherwise a free atom"""
         if self.models:
             m_ = self.model_of(a) or self.model_of(b)
@@ -529,6 +529,14 @@ class Interp:
             return False
         if a[0] == "node" and b[0] == "node":
             return a[1] is b[1]
+        if a[0] == "obj" and not identity and a[1].cls is not None and a[1].id not in self.models and a[1] is not (b[1] if b[0] == "obj" else None):
+            # `==` on an object whose class defines __eq__ is that method's answer
+            kk_, m_ = self.repo.find_method(a[1].cls, "__eq__")
+            if m_ is not None:
+                r_ = self.force(self.call_function(m_, kk_, a, [b], {}, depth=1))
+                if r_[0] == "c":
+                    return bool(r_[1])
+                return self.truth(r_, "eq(%s)" % text)
         if a[0] == "obj" and b[0] == "obj":
             return a[1] is b[1]
         # two closed sequences: the same kind, the same length, equal element by element
@@ -538,6 +546,18 @@ class Interp:
             if v_[0] == "c" and isinstance(v_[1], (list, tuple)):
                 return ("list" if isinstance(v_[1], list) else "tuple", [("c", y_) for y_ in v_[1]])
             return None
+        def map_(v_):
+            if v_[0] == "dict" and not (len(v_) > 2 and v_[2]) and not any(isinstance(k_, tuple) and k_ and k_[0] == "dyn" for k_ in v_[1]):
+                return dict(v_[1])
+            if v_[0] == "c" and isinstance(v_[1], dict):
+                return {k_: ("c", x_) for k_, x_ in v_[1].items()}
+            return None
+        ma_, mb_ = map_(a), map_(b)
+        if ma_ is not None and mb_ is not None and (a[0] == "dict" or b[0] == "dict"):
+            # two closed dictionaries: the same keys, equal values
+            if set(ma_) != set(mb_):
+                return False
+            return all(self.equal(self.force(ma_[k_]), self.force(mb_[k_]), "%s[%r]" % (text, k_)) for k_ in ma_)
         sa_, sb_ = seq_(a), seq_(b)
         if sa_ is not None and sb_ is not None and (a[0] == "list" or b[0] == "list"):
             if {sa_[0], sb_[0]} == {"list", "tuple"} and a[0] == "c" and b[0] == "c":
@@ -545,6 +565,8 @@ class Interp:
             if len(sa_[1]) != len(sb_[1]):
                 return False
             return all(self.equal(self.force(x_), self.force(y_), "%s[%d]" % (text, i_)) for i_, (x_, y_) in enumerate(zip(sa_[1], sb_[1])))
+        if (a[0] == "ext" and a[1].startswith("sentinel #")) or (b[0] == "ext" and b[1].startswith("sentinel #")):
+            return a[0] == "ext" and b[0] == "ext" and a[1] == b[1]
         if a[0] == "ext" and b[0] == "ext" and not a[2] and not b[2]:
             return a[1] == b[1]
         if (a[0] == "ext" and not a[2] and b[0] == "cls") or (b[0] == "ext" and not b[2] and a[0] == "cls"):
@@ -1298,8 +1320,9 @@ class Interp:
                 self.assign(e, items[i] if items else ("fn", "item%d" % i, [v]), env, depth)
         elif isinstance(t, ast.Attribute):
             b = self.expr(t.value, env, depth)
-            self.set_attr(b, t.attr, v, env, depth, t)
+            self.set_attr(b, t.attr, self._used(v), env, depth, t)
         elif isinstance(t, ast.Subscript):
+            v = self._used(v)
             b = self.force(self.expr(t.value, env, depth))
             k = self.expr(t.slice, env, depth) if not isinstance(t.slice, ast.Slice) else ("unk", "slice")
             kc = k if k[0] == "c" else None
@@ -1636,9 +1659,9 @@ class Interp:
             if sr is not None:
                 r = sr
             elif isinstance(op, (ast.Eq, ast.Is)):
-                r = self.equal(left, right, text)
+                r = self.equal(left, right, text, identity=isinstance(op, ast.Is))
             elif isinstance(op, (ast.NotEq, ast.IsNot)):
-                r = not self.equal(left, right, text)
+                r = not self.equal(left, right, text, identity=isinstance(op, ast.IsNot))
             elif isinstance(op, (ast.In, ast.NotIn)):
                 r = self.contains(right, left, text)
                 if isinstance(op, ast.NotIn):
@@ -2174,6 +2197,13 @@ class Interp:
         return None
 
     def class_const_value(self, kc, c, ce):
+        if isinstance(ce, ast.Call) and isinstance(ce.func, ast.Name) and ce.func.id == "object" and not ce.args and not ce.keywords:
+            # `_MISSING = object()` in a class body: one object, identical to nothing but itself
+            key = (kc.qname, "@sentinel", id(ce))
+            if key not in self.class_attrs:
+                self._n_sentinels = getattr(self, "_n_sentinels", 0) + 1
+                self.class_attrs[key] = ("ext", "sentinel #%d" % self._n_sentinels, [])
+            return self.class_attrs[key]
         a = const_alts(Evaluator(self.repo, kc.module, c, class_scope=kc).ev(ce))
         if a is not None and len(a) == 1:
             if isinstance(a[0], dict) and isinstance(ce, (ast.Dict, ast.Call)) and all(_hashable(k_) for k_ in a[0]):
@@ -2212,6 +2242,16 @@ class Interp:
                 ka = const_alts(Evaluator(self.repo, kc.module, c, class_scope=kc).ev(k_))
                 if ka is None or len(ka) != 1 or not _hashable(ka[0]):
                     kcls = self.repo.resolve_expr_class(kc.module, k_) if isinstance(k_, (ast.Name, ast.Attribute)) else None
+                    if kcls is None and isinstance(k_, ast.Attribute) and not any(isinstance(y_, ast.Call) for y_ in ast.walk(k_)):
+                        # a named constant of an imported class (Stream.EVENT_WRITE) as a key: the value a method body
+                        # gets for the same expression
+                        try:
+                            kv_ = self.expr(k_, {"@module": kc.module, "@owner": kc}, 1)
+                        except (NeedAtom, _Raise):
+                            kv_ = None
+                        if kv_ is not None and kv_[0] == "fn" and kv_[1].startswith("."):
+                            out[("dyn", len(out))] = ("list", [kv_, self.class_const_value(kc, c, v_)])
+                            continue
                     if kcls is None:
                         return ("fn", "const", [])
                     out[("dyn", len(out))] = ("list", [("cls", kcls), self.class_const_value(kc, c, v_)])      # a table keyed by classes
@@ -2285,6 +2325,12 @@ class Interp:
             fv = self.expr(f, env, depth)
         return self.apply(fv, args, kwargs, env, depth, e)
 
+    def _used(self, v):
+        """a value that is only looked up when somebody uses it (a field listed by ListFields) is looked up now"""
+        if v[0] == "lazy" and getattr(v[1], "on_use", False):
+            return self.force(v)
+        return v
+
     def eval_args(self, e, env, depth):
         args = []
         for a in e.args:
@@ -2293,10 +2339,10 @@ class Interp:
                 items = self.iterate(v)
                 args += items if items is not None else [("fn", "star", [v])]
             else:
-                args.append(self.expr(a, env, depth))
+                args.append(self._used(self.expr(a, env, depth)))
         kwargs = {}
         for k in e.keywords:
-            v = self.expr(k.value, env, depth)
+            v = self._used(self.expr(k.value, env, depth))
             if k.arg is None:
                 if v[0] == "dict":
                     for kk, vv in v[1].items():
@@ -2509,6 +2555,10 @@ class Interp:
             if v[0] == "unset" and len(args) > 2:
                 return args[2]
             return v
+        if name == "object" and not args and not kwargs:
+            # object(): a new object that is identical to nothing but itself (sentinels)
+            self._n_sentinels = getattr(self, "_n_sentinels", 0) + 1
+            return ("ext", "sentinel #%d" % self._n_sentinels, [])
         if name == "range" and args and all(a[0] == "c" and isinstance(a[1], int) for a in args):
             try:
                 r = range(*[a[1] for a in args])
